@@ -31,6 +31,40 @@ type MessageVerifBad2 struct {
 
 func (*MessageVerifBad2) GetID() uint32 { return 4000000 }
 
+type VerifEnum64 uint64
+
+// malformed: enum carriers the wire format does not allow, a non-uint64 enum, a bad string length
+type MessageVerifBad3 struct {
+	A    uint8
+	Mode VerifEnum64 `mavenum:"int16"`
+}
+
+func (*MessageVerifBad3) GetID() uint32 { return 4000000 }
+
+type MessageVerifBad4 struct {
+	Mode VerifEnum64 `mavenum:"float"`
+}
+
+func (*MessageVerifBad4) GetID() uint32 { return 4000000 }
+
+type MessageVerifBad5 struct {
+	Mode VerifNamedByte `mavenum:"uint8"`
+}
+
+func (*MessageVerifBad5) GetID() uint32 { return 4000000 }
+
+type MessageVerifBad6 struct {
+	Name string `mavlen:"x4"`
+}
+
+func (*MessageVerifBad6) GetID() uint32 { return 4000000 }
+
+type MessageVerifBad7 struct {
+	Mode VerifEnum64 `mavenum:"int64"`
+}
+
+func (*MessageVerifBad7) GetID() uint32 { return 4000000 }
+
 // D2: a dialect with duplicate ids or a malformed message struct is rejected when it is initialised
 func verifHarness_C17_duplicates(k int, bad int) {
 	all := []message.Message{&MessageVerifDynA{}, &MessageVerifDynB{}, &MessageVerifDynC{}, &MessageVerifDynD{}}
@@ -46,8 +80,19 @@ func verifHarness_C17_duplicates(k int, bad int) {
 	if bad == 1 {
 		msgs = append(msgs, &MessageVerifBad{})
 	}
-	if bad == 2 {
+	switch bad {
+	case 2:
 		msgs = append(msgs, &MessageVerifBad2{})
+	case 3:
+		msgs = append(msgs, &MessageVerifBad3{})
+	case 4:
+		msgs = append(msgs, &MessageVerifBad4{})
+	case 5:
+		msgs = append(msgs, &MessageVerifBad5{})
+	case 6:
+		msgs = append(msgs, &MessageVerifBad6{})
+	case 7:
+		msgs = append(msgs, &MessageVerifBad7{})
 	}
 	rw := &ReadWriter{Dialect: &Dialect{Version: 1, Messages: msgs}}
 	err := rw.Initialize()
